@@ -1,0 +1,7 @@
+// +build !verif
+
+package fileutil
+
+import "os"
+
+func verifSyncPoint(f *os.File) {}
